@@ -296,6 +296,10 @@ class Gen:
             t = self.target(cur_idx, not self.cycles)
             if t is not None:
                 self.count("block_jump")
+                if r.random() < self.f.get("markers", 0.6):
+                    self.nbj = getattr(self, "nbj", 0) + 1
+                    items.append({"k": "line", "parts": [("t", f"=bj_{self.nbj}=")], "glue": False, "tags": [], "comment": None})
+                    items.append({"k": "stmt", "code": f"bj_{self.nbj} = bj_{self.nbj} + 1", "comment": None})
                 items.append({"k": "jump", "target": t, "args": ""})
         return items
 
@@ -364,6 +368,8 @@ class Gen:
         if r.random() < self.f.get("probes", 0.5):
             # probe: what the passage sees as its parameter scope on entry
             items.append({"k": "stmt", "code": f"lk_{name} = dict(_local)", "comment": None})
+        if r.random() < self.f.get("markers", 0.6):
+            items.append({"k": "line", "parts": [("t", f"={name}=")], "glue": False, "tags": [], "comment": None})
         if params and r.random() < self.f.get("probes", 0.5):
             items.append({"k": "render", "name": f"pr_{name}", "args": ", ".join(p for p, _ in params)})
         saved_sf = self.f["stmt_faults"]
@@ -401,7 +407,8 @@ class Gen:
             for sct in range(nsec):
                 for _ in range(r.randint(1, 2)):
                     ch = self.choice(idx, ints, join=True)
-                    ch["block"] = self.join_block(ints)
+                    self.njc = getattr(self, "njc", 0) + 1
+                    ch["block"] = [{"k": "stmt", "code": f"jc_{self.njc} = jc_{self.njc} + 1", "comment": None}] + self.join_block(ints)
                     items.append(ch)
                 if r.random() < 0.5:
                     items.append(self.choice(idx, ints))
@@ -470,6 +477,9 @@ class Gen:
                     ps.append((pool[j], default))
                 self.params[n] = ps
         passages = [self.passage(i) for i in range(self.n)] + [self.hook_passage(h) for h in self.hook_names]
+        inits = [{"k": "stmt", "code": f"jc_{k} = 0", "comment": None} for k in range(1, getattr(self, "njc", 0) + 1)]
+        inits += [{"k": "stmt", "code": f"bj_{k} = 0", "comment": None} for k in range(1, getattr(self, "nbj", 0) + 1)]
+        passages[0]["items"] = inits + passages[0]["items"]
         return {"passages": passages, "cycles": self.cycles}
 
 
